@@ -581,7 +581,7 @@ def execute(run: Dict[str, Any], golden: Dict[str, Any]) -> Dict[str, Any]:
         extra_trace_files=deep_files,
         buggify_calls=run["buggify"],
         start_after=run["start_after"],
-        step_cap=run.get("step_cap", 4_000_000 if run.get("deep") else 600_000),
+        step_cap=run.get("step_cap", 6_000_000 if run.get("deep") else 1_500_000),
     )
     # locks created by lsprotocol modules from now on block in the scheduler, not in C
     import threading as _th
@@ -813,7 +813,11 @@ def execute(run: Dict[str, Any], golden: Dict[str, Any]) -> Dict[str, Any]:
     if isinstance(sched.abort, Deadlock):
         viol.append({"sig": "deadlock", "msg": str(sched.abort)})
     elif isinstance(sched.abort, StepCap):
-        harness = str(sched.abort)
+        # bounded liveness: with a fair scheduler (a thread that ran 100 000 consecutive steps sits out 30 000
+        # steps if another is runnable) every script of a correct tree ends within a small fraction of the
+        # cap; reaching it means threads keep running without finishing (livelock / unbounded wait)
+        where = sorted({str(sched.site_name(sched.pos[t])[:3]) for t in range(n) if sched.state[t] != "done"})
+        viol.append({"sig": "no-progress-within-step-cap", "msg": f"{sched.abort}; unfinished threads were last seen at {where[:4]}"})
 
     # end-of-run isolation sweep: every converter created in this run, in creation order, must still
     # agree with the golden of its mode on a small sample (creating/customising later ones must not
@@ -856,6 +860,7 @@ def execute(run: Dict[str, Any], golden: Dict[str, Any]) -> Dict[str, Any]:
         "policy": run["policy"]["kind"],
         "ops": sum(len(t) for t in run["threads"]),
         "deep": bool(run.get("deep")),
+        "forced_switches": sched.forced_switches,
         "swept": swept,
         "history": history[:40],
     }
@@ -1339,6 +1344,9 @@ def main(argv: List[str]) -> int:
         "runs_per_hour": int(len(ok_results) / max(wall, 1e-6) * 3600),
         "seeds": {"VERIF_SEED": seed, "first_run_seeds": run_seeds[:5]},
         "steps_total": sum(r.get("steps", 0) for r in ok_results),
+        "steps_max_in_one_run": max([r.get("steps", 0) for r in ok_results] or [0]),
+        "step_cap": {"normal": 1_500_000, "deep": 6_000_000, "fairness": "a thread that ran 100 000 consecutive steps sits out 30 000 steps when another thread is runnable"},
+        "forced_fair_switches": sum(r.get("forced_switches", 0) for r in ok_results),
         "context_switches_total": sum(r.get("switches", 0) for r in ok_results),
         "simulated_time": "no clock is read by property-relevant code; the scheduler step counter is the only time "
                           "(late joiners are released at a step count, with a discrete-event jump when nothing else is runnable)",
@@ -1351,6 +1359,7 @@ def main(argv: List[str]) -> int:
         },
         "probes_runs_hit": probes,
         "shapes": shapes,
+        "deep_mode_runs": sum(1 for r in ok_results if r.get("deep")),
         "policies": pols,
         "distinct_interleavings": distinct,
         "systematic_single_preemption_sweep": dict(sweep_info, runs=sum(1 for r in ok_results if r.get("shape") == "sweep1")),
